@@ -205,6 +205,7 @@ func crashText(c *child) string {
 
 type job struct {
 	id, line string
+	good     bool // class "good": a timeout is double-checked before it is reported
 }
 
 // worker owns one child at a time and keeps up to `window` cases in flight in it (the child
@@ -255,7 +256,8 @@ func (w *worker) alone(j job, slow int) string {
 // retry runs a case that timed out once more, alone, with a more generous limit.
 func (w *worker) retry(j job) string {
 	res := "timeout"
-	if !tripped() {
+	// a case of a known-finding class is not retried: its timeout cannot raise a false alarm
+	if j.good && !tripped() {
 		res = w.alone(j, w.retryFactor)
 	}
 	if res == "timeout" {
@@ -372,11 +374,8 @@ func (w *worker) run() {
 }
 
 func mkJob(line string) job {
-	id := line
-	if k := strings.IndexByte(line, '\t'); k >= 0 {
-		id = line[:k]
-	}
-	return job{id, line}
+	f := strings.SplitN(line, "\t", 3)
+	return job{id: f[0], line: line, good: len(f) < 2 || f[1] == "good"}
 }
 
 func supervisorMain() {
